@@ -211,8 +211,8 @@ impl Check for C18 {
     }
     fn total_cases(&self, tier: Tier) -> u64 {
         match tier {
-            Tier::Quick => 6000,
-            Tier::Thorough => 600_000,
+            Tier::Quick => 30000,
+            Tier::Thorough => 3_000_000,
         }
     }
     fn once(&self, ctx: &Ctx, out: &mut Outcome) {
@@ -353,8 +353,8 @@ impl Check for C17 {
     }
     fn total_cases(&self, tier: Tier) -> u64 {
         match tier {
-            Tier::Quick => 8000,
-            Tier::Thorough => 1_000_000,
+            Tier::Quick => 40000,
+            Tier::Thorough => 4_000_000,
         }
     }
     fn once(&self, ctx: &Ctx, out: &mut Outcome) {
